@@ -505,7 +505,10 @@ func init() {
 					bp = append(bp, uidOf(0))
 				}
 				r := newE2ERig(mgr, bp, nil)
-				r.sta.WorldState = common.WorldState{Rand: vWorld().Rand, Now: rtime.Now}
+				// both clocks are frozen for the case: a timestamp one second outside the window stays outside it
+				// however long a loaded machine takes between the client's stamp and the server's check
+				t0 := rtime.Now()
+				r.sta.WorldState = common.WorldState{Rand: vWorld().Rand, Now: func() rtime.Time { return t0 }}
 				r.sta.ProxyBook["ss"] = tcpAddr{"proxy:8388"}
 				if transport == "cdn" {
 					r.startCDN(2)
@@ -528,7 +531,7 @@ func init() {
 				desc := fmt.Sprintf("user holds session 9; then %s (bypass=%v, transport=%s)", sc.name, bypass, transport)
 				msg := ""
 				// the session the user already holds
-				cs0 := hsCase{Transport: transport, Browser: "firefox", Method: "plain", ProxyMethod: "shadowsocks", SID: 9, ServerName: "example.com"}
+				cs0 := hsCase{Transport: transport, Browser: "firefox", Method: "plain", ProxyMethod: "shadowsocks", SID: 9, ServerName: "example.com", UseAbsClock: true, AbsClock: t0.Unix()}
 				remote0, auth0 := r.clientCfgFor(cs0, uidOf(0))
 				conn0, _ := r.dialer.Dial("tcp", remote0.RemoteAddr)
 				conn0.SetReadDeadline(rtime.Now().Add(30 * rtime.Second))
@@ -543,7 +546,7 @@ func init() {
 					_, p2, _ := ecdh.GenerateKey(fixedReader{99})
 					r.pub = *(p2.(*[32]byte))
 				}
-				cs := hsCase{Transport: transport, Browser: "firefox", Method: "plain", ProxyMethod: sc.pm, SID: sc.sid, ServerName: "example.com", Offset: sc.offset}
+				cs := hsCase{Transport: transport, Browser: "firefox", Method: "plain", ProxyMethod: sc.pm, SID: sc.sid, ServerName: "example.com", Offset: sc.offset, UseAbsClock: true, AbsClock: t0.Unix() + int64(sc.offset)}
 				remote, auth := r.clientCfgFor(cs, uidOf(sc.uid))
 				r.pub = pub
 				conn, _ := r.dialer.Dial("tcp", remote.RemoteAddr)
